@@ -21,6 +21,7 @@ template <class T> void red(T* acc, const T* in, int n, int op, bool first) {
   for (int i = 0; i < n; i++) { if (first) acc[i] = in[i]; else if (op == MPI_SUM) acc[i] += in[i]; else if (op == MPI_MAX) acc[i] = acc[i] > in[i] ? acc[i] : in[i]; else acc[i] = acc[i] < in[i] ? acc[i] : in[i]; }
 }
 int contribute(const void* in, int count, MPI_Datatype ty, MPI_Op op) {
+  trace_note("collective #%d type=%d op=%d count=%d in0=%ld", coll_seq, ty, op, count, ty == MPI_UNSIGNED_LONG || ty == MPI_LONG ? *(const long*)in : (long)*(const int*)in);   // only with VSIM_TRACE
   int slot = (coll_seq++) % 1024;
   Coll& c = W->coll[slot];
   if (count > 8) violation("infra", "simmpi.coll", "collective with %d > 8 elements", count);
@@ -41,6 +42,7 @@ int contribute(const void* in, int count, MPI_Datatype ty, MPI_Op op) {
 }
 void fetch(int slot, void* out, int count, int ty) {
   Coll& c = W->coll[slot];
+  trace_note("collective result slot=%d type=%d value0=%ld/%lu", slot, ty, (long)c.lacc[0], (unsigned long)c.uacc[0]);
   for (int i = 0; i < count; i++) switch (ty) {
     case MPI_INT: ((int*)out)[i] = (int)c.lacc[i]; break; case MPI_LONG: ((long*)out)[i] = c.lacc[i]; break;
     case MPI_UNSIGNED: ((unsigned*)out)[i] = (unsigned)c.uacc[i]; break; case MPI_UNSIGNED_LONG: ((unsigned long*)out)[i] = c.uacc[i]; break;
